@@ -1,2 +1,413 @@
-(* Proofs/TrieProofsC.v *)
+(* Proofs/TrieProofsC.v — ForEach's explicit-stack traversal reports exactly the
+   members; the JSON object tree round-trips. *)
+From Coq Require Import String Sorting.Sorted Permutation.
 From Bio Require Import Base.
+From Bio.Model Require Import Trie.
+From Bio.Spec Require Import TrieSpec.
+From Bio.Proofs Require Import TrieProofs TrieProofsB.
+
+Local Open Scope nat_scope.
+
+(* ---- ForEach ------------------------------------------------------------------------------------ *)
+(* iterations of the loop spent on a node and everything below it *)
+Fixpoint cost (t : trie) : nat :=
+  match t with T l => S (fold_right (fun kc n => S (cost (snd kc) + n)) O l) end.
+Definition cost_list (l : list (byte * trie)) : nat :=
+  fold_right (fun kc n => S (cost (snd kc) + n)) O l.
+
+Lemma cost_T l : cost (T l) = S (cost_list l).
+Proof. reflexivity. Qed.
+
+Lemma cost_size : forall t, cost t + 1 = 2 * size t.
+Proof.
+  induction t as [l IH] using trie_ind2. cbn [cost size].
+  induction l as [|[k c] r IHr]; [reflexivity|].
+  pose proof (Forall_inv IH) as Hc. cbn [snd] in Hc.
+  specialize (IHr (Forall_inv_tail IH)). cbn [fold_right snd]. lia.
+Qed.
+
+(* what the traversal reports below a node reached with current sequence rev rcur *)
+Definition sub_reports (rcur : bytes) (t : trie) : list bytes :=
+  match t with
+  | T [] => if is_nil rcur then [] else [rev rcur]
+  | _ => map (app (rev rcur)) (members t)
+  end.
+
+Lemma sub_reports_child k rcur c :
+  sub_reports (k :: rcur) c = map (app (rev rcur)) (child_members k c).
+Proof.
+  unfold sub_reports, child_members. destruct c as [[|kc rc]].
+  - cbn. reflexivity.
+  - rewrite map_map. apply map_ext. intro a. cbn [rev]. rewrite <- app_assoc. reflexivity.
+Qed.
+
+Lemma map_flat_map {A B C} (f : B -> C) (g : A -> list B) l :
+  map f (flat_map g l) = flat_map (fun x => map f (g x)) l.
+Proof. induction l; cbn; auto. rewrite map_app, IHl. reflexivity. Qed.
+
+Lemma sub_reports_node rcur kc r :
+  sub_reports rcur (T (kc :: r)) =
+  flat_map (fun kc => sub_reports (fst kc :: rcur) (snd kc)) (kc :: r).
+Proof.
+  unfold sub_reports at 1. rewrite members_unfold, map_flat_map.
+  apply flat_map_ext. intros [k c]. rewrite sub_reports_child. reflexivity.
+Qed.
+
+(* where the loop is after a node has been popped *)
+Definition after (fuel : nat) (rest : list (trie * nat)) (rcur : bytes) (out : list bytes)
+  : outcome (list bytes) :=
+  match rest with
+  | [] => Ok (rev out)
+  | _ => fe_loop fuel 0 rest (tl rcur) out
+  end.
+
+Definition node_ok (t : trie) : Prop :=
+  forall rest rcur out fuel,
+    fe_loop (cost t + fuel) 0 ((t, 0) :: rest) rcur out =
+    after fuel rest rcur (rev (sub_reports rcur t) ++ out).
+
+Lemma nth_error_mid {A} (pre : list A) x suf : nth_error (pre ++ x :: suf) (length pre) = Some x.
+Proof. induction pre; cbn; auto. Qed.
+
+(* a node with children, from its i-th child on *)
+Lemma children_ok : forall suf pre rest rcur out fuel,
+  Forall (fun kc => node_ok (snd kc)) suf ->
+  pre ++ suf <> [] ->
+  fe_loop (S (cost_list suf + fuel)) 0 ((T (pre ++ suf), length pre) :: rest) rcur out =
+  after fuel rest rcur
+        (rev (flat_map (fun kc => sub_reports (fst kc :: rcur) (snd kc)) suf) ++ out).
+Proof.
+  induction suf as [|[k c] suf IH]; intros pre rest rcur out fuel F N.
+  - rewrite app_nil_r in *. cbn [fe_loop].
+    destruct pre as [|p0 pre0]; [congruence|]. cbn [is_nil andb].
+    rewrite Nat.eqb_refl. cbn. destruct rest; reflexivity.
+  - cbn [fe_loop].
+    assert (E1 : is_nil (pre ++ (k, c) :: suf) = false) by (destruct pre; reflexivity).
+    rewrite E1. cbn [andb].
+    assert (E2 : Nat.eqb (length pre) (length (pre ++ (k, c) :: suf)) = false).
+    { apply Nat.eqb_neq. rewrite app_length. cbn. lia. }
+    rewrite E2, nth_error_mid.
+    pose proof (Forall_inv F) as Hc. cbn [snd] in Hc.
+    replace (cost_list ((k, c) :: suf) + fuel) with (cost c + S (cost_list suf + fuel))
+      by (unfold cost_list; cbn [fold_right snd]; lia).
+    rewrite Hc. cbn [after tl].
+    replace (pre ++ (k, c) :: suf) with ((pre ++ [(k, c)]) ++ suf) by (rewrite <- app_assoc; reflexivity).
+    replace (S (length pre)) with (length (pre ++ [(k, c)])) by (rewrite app_length; cbn; lia).
+    rewrite IH.
+    + cbn [flat_map fst snd]. rewrite rev_app_distr, <- app_assoc. reflexivity.
+    + eapply Forall_inv_tail; eauto.
+    + destruct pre; discriminate.
+Qed.
+
+Lemma all_nodes_ok : forall t, node_ok t.
+Proof.
+  induction t as [l IH] using trie_ind2. intros rest rcur out fuel.
+  destruct l as [|kc r].
+  - cbn [cost fold_right Nat.add fe_loop is_nil length Nat.eqb andb sub_reports].
+    destruct rcur as [|x rcur]; cbn [is_nil negb andb].
+    + cbn. destruct rest; reflexivity.
+    + cbn [length Nat.eqb rev app after tl]. destruct rest; reflexivity.
+  - rewrite cost_T. cbn [Nat.add].
+    pose proof (children_ok (kc :: r) [] rest rcur out fuel IH ltac:(discriminate)) as C.
+    cbn [app length] in C. rewrite sub_reports_node. exact C.
+Qed.
+
+(* ForEach without early stop: terminates within the fuel and reports the
+   members (for the model's key order, in this order) *)
+Theorem for_each_members : forall t, for_each t = Ok (members t).
+Proof.
+  intro t. unfold for_each, for_each_until.
+  replace (2 * size t) with (cost t + 1) by apply cost_size.
+  rewrite all_nodes_ok. cbn [after]. rewrite app_nil_r, rev_involutive.
+  unfold sub_reports. destruct t as [[|kc r]]; [reflexivity|].
+  cbn [rev]. f_equal. rewrite <- (map_id (members _)) at 2. apply map_ext. reflexivity.
+Qed.
+
+Theorem for_each_exact : forall t, wf t ->
+  exists l, for_each t = Ok l /\ Permutation l (members t) /\ NoDup l.
+Proof.
+  intros t W. exists (members t). split; [apply for_each_members|].
+  split; [apply Permutation_refl | apply members_NoDup; auto].
+Qed.
+
+(* ---- JSON ------------------------------------------------------------------------------------------ *)
+Local Open Scope N_scope.
+
+Definition key_text (k : byte) : bytes := itoa (Z.of_N k).
+
+Lemma parse_key_text_all :
+  forallb (fun n => match parse_key (key_text (N.of_nat n)) with
+                    | Some k => k =? N.of_nat n
+                    | None => false
+                    end) (seq 0 256) = true.
+Proof. vm_compute. reflexivity. Qed.
+
+Lemma parse_key_text k : k < 256 -> parse_key (key_text k) = Some k.
+Proof.
+  intro L. pose proof parse_key_text_all as A. rewrite forallb_forall in A.
+  specialize (A (N.to_nat k)). rewrite N2Nat.id in A.
+  destruct (parse_key (key_text k)) as [k'|].
+  - f_equal. apply N.eqb_eq. apply A. apply in_seq. lia.
+  - discriminate A. apply in_seq. lia.
+Qed.
+
+Definition field_of (kc : byte * trie) : bytes * jvalue := (key_text (fst kc), to_json (snd kc)).
+
+Lemma to_json_T l : to_json (T l) = JObj [(m_name, JObj (map field_of l))].
+Proof. reflexivity. Qed.
+
+Lemma of_json_shape kvs :
+  of_json (JObj [(m_name, JObj kvs)]) =
+  match of_fields of_json kvs [] with Some l => Some (T l) | None => None end.
+Proof. reflexivity. Qed.
+
+(* storing ascending keys one after the other appends *)
+Lemma mset_append {V} (k : byte) (v : V) acc :
+  (forall k' v', In (k', v') acc -> k' < k) -> mset k v acc = acc ++ [(k, v)].
+Proof.
+  induction acc as [|[k0 v0] r IH]; intro F; [reflexivity|].
+  cbn [mset app]. pose proof (F k0 v0 (or_introl eq_refl)) as L.
+  destruct (k <? k0) eqn:A; [apply N.ltb_lt in A; lia|].
+  destruct (k =? k0) eqn:B; [apply N.eqb_eq in B; lia|].
+  rewrite IH; auto. intros k' v' I. eapply F. right. eauto.
+Qed.
+
+Lemma of_fields_fields : forall suf acc,
+  sorted (acc ++ suf) ->
+  (forall k c, In (k, c) suf -> k < 256 /\ of_json (to_json c) = Some c) ->
+  of_fields of_json (map field_of suf) acc = Some (acc ++ suf).
+Proof.
+  induction suf as [|[k c] suf IH]; intros acc S H.
+  - cbn. rewrite app_nil_r. reflexivity.
+  - cbn [map of_fields field_of fst snd].
+    destruct (H k c (or_introl eq_refl)) as [L R].
+    rewrite parse_key_text, R; auto.
+    rewrite mset_append.
+    + replace (acc ++ (k, c) :: suf) with ((acc ++ [(k, c)]) ++ suf) in * by (rewrite <- app_assoc; reflexivity).
+      apply IH; auto. intros k' c' I. apply H. right. auto.
+    + (* every key already stored is smaller *)
+      intros k' v' I. clear IH H R. unfold sorted in S.
+      induction acc as [|[k0 v0] r IHr]; [destruct I|].
+      cbn [app map fst] in S. apply StronglySorted_inv in S as [S F].
+      destruct I as [E|I].
+      * inversion E; subst. rewrite Forall_forall in F. apply F.
+        rewrite map_app, in_app_iff. right. cbn. auto.
+      * apply IHr; auto.
+Qed.
+
+Theorem json_roundtrip : forall t, wf t -> byte_keys t -> of_json (to_json t) = Some t.
+Proof.
+  induction t as [l IH] using trie_ind2. intros W B.
+  rewrite to_json_T, of_json_shape.
+  rewrite (of_fields_fields l []); [reflexivity | apply wf_inv in W; tauto |].
+  intros k c I. inversion B as [l' B']; subst l'.
+  destruct (B' k c I) as [L Bc]. split; auto.
+  rewrite Forall_forall in IH. apply (IH (k, c) I); auto.
+  apply wf_inv in W as [_ W]. eauto.
+Qed.
+
+(* histories over bytes keep the keys bytes *)
+Lemma byte_keys_empty : byte_keys empty.
+Proof. constructor. intros ? ? []. Qed.
+
+Lemma byte_keys_inv l : byte_keys (T l) -> forall k c, In (k, c) l -> k < 256 /\ byte_keys c.
+Proof. intro B. inversion B; auto. Qed.
+
+Lemma byte_keys_add : forall b t, Forall (fun x => x < 256) b -> byte_keys t -> byte_keys (add b t).
+Proof.
+  induction b as [|k b IH]; intros [l] F B; cbn [add]; auto.
+  inversion F; subst. constructor. intros k' c' I.
+  apply In_mset in I as [[-> ->]|I].
+  - split; auto. apply IH; auto.
+    destruct (mget k l) as [c|] eqn:G; [|apply byte_keys_empty].
+    apply mget_Some_In in G. eapply byte_keys_inv in G; eauto. tauto.
+  - eapply byte_keys_inv; eauto.
+Qed.
+
+Lemma byte_keys_rdel : forall b t t', byte_keys t -> rdel b t = Some t' -> byte_keys t'.
+Proof.
+  induction b as [|k b IH]; intros [l] t' B R; cbn [rdel] in R.
+  - inversion R. apply byte_keys_empty.
+  - destruct (mget k l) as [c|] eqn:G; [|discriminate].
+    destruct (rdel b c) as [c'|] eqn:Rc; [|discriminate].
+    apply mget_Some_In in G.
+    destruct (is_nil (children c')); inversion R; subst t'; constructor; intros k' d I.
+    + apply In_mdel in I. eapply byte_keys_inv; eauto.
+    + apply In_mset in I as [[-> ->]|I]; [|eapply byte_keys_inv; eauto].
+      destruct (byte_keys_inv _ B _ _ G) as [L Bc]. split; auto. eapply IH; eauto.
+Qed.
+
+Lemma byte_keys_delete b t : byte_keys t -> byte_keys (fst (delete b t)).
+Proof.
+  intro B. rewrite delete_eq. destruct (has b t); cbn [fst]; auto.
+  destruct b as [|k b]; auto.
+  destruct (rdel (k :: b) t) eqn:R; auto. eapply byte_keys_rdel; eauto.
+Qed.
+
+Lemma byte_keys_run : forall ops t, ops_are_bytes ops -> byte_keys t -> byte_keys (fst (run ops t)).
+Proof.
+  induction ops as [|o r IH]; intros t F B; [exact B|].
+  rewrite run_cons. cbn [fst]. inversion F; subst. apply IH; auto.
+  destruct o as [b|b]; cbn [apply_op op_bytes] in *.
+  - cbn [fst]. apply byte_keys_add; auto.
+  - pose proof (byte_keys_delete b t B). destruct (delete b t). auto.
+Qed.
+
+(* a trie built by any history of byte sequences survives the JSON round trip *)
+Theorem json_roundtrip_run : forall ops, ops_are_bytes ops ->
+  of_json (to_json (fst (run ops empty))) = Some (fst (run ops empty)).
+Proof.
+  intros ops F. apply json_roundtrip.
+  - apply trie_refines.
+  - apply byte_keys_run; auto. apply byte_keys_empty.
+Qed.
+
+(* ---- what a history leaves behind, observed ------------------------------------------------------------ *)
+Lemma run_state_refines ops :
+  wf (fst (run ops empty)) /\ seteq (members (fst (run ops empty))) (fst (spec_run ops [])).
+Proof.
+  destruct (run_refines ops empty [] wf_empty) as [W [S _]]; [intro; cbn; tauto|]. auto.
+Qed.
+
+Theorem has_after_history ops x :
+  has x (fst (run ops empty)) = spec_has (fst (spec_run ops [])) x.
+Proof.
+  destruct (run_state_refines ops) as [W S].
+  rewrite has_spec_has; auto. unfold spec_has. destruct x; auto. apply existsb_seteq; auto.
+Qed.
+
+Theorem for_each_after_history ops :
+  exists l, for_each (fst (run ops empty)) = Ok l /\
+            Permutation l (fst (spec_run ops [])) /\ NoDup l.
+Proof.
+  destruct (trie_refines ops) as [W [P [N _]]].
+  exists (members (fst (run ops empty))). split; [apply for_each_members | auto].
+Qed.
+
+Lemma delete_nil t : delete [] t = (t, true).
+Proof. reflexivity. Qed.
+
+(* ---- ForEach with a callback that returns false at its p-th call ----------------------------------------- *)
+Local Open Scope nat_scope.
+
+Lemma sub_reports_root t : sub_reports [] t = members t.
+Proof.
+  unfold sub_reports. destruct t as [[|kc r]]; [reflexivity|].
+  cbn [rev]. rewrite <- (map_id (members _)) at 2. apply map_ext. reflexivity.
+Qed.
+
+Section Until.
+  Variable p : nat.
+  Hypothesis p_pos : p <> 0.
+
+  Definition after_p (fuel : nat) (rest : list (trie * nat)) (rcur : bytes) (out : list bytes)
+    : outcome (list bytes) :=
+    match rest with
+    | [] => Ok (rev out)
+    | _ => fe_loop fuel p rest (tl rcur) out
+    end.
+
+  (* with [out] reported so far (fewer than p) and R still to come below a node:
+     either all of R is reported and the loop goes on with K, or it stops inside R *)
+  Definition cont (out R : list bytes) (K : list bytes -> outcome (list bytes))
+    : outcome (list bytes) :=
+    if length out + length R <? p then K (rev R ++ out)
+    else Ok (rev out ++ firstn (p - length out) R).
+
+  Definition node_ok_p (t : trie) : Prop :=
+    forall rest rcur out fuel, length out < p ->
+      fe_loop (cost t + fuel) p ((t, 0) :: rest) rcur out =
+      cont out (sub_reports rcur t) (after_p fuel rest rcur).
+
+  Lemma cont_ext out R K1 K2 :
+    (length out + length R < p -> K1 (rev R ++ out) = K2 (rev R ++ out)) ->
+    cont out R K1 = cont out R K2.
+  Proof.
+    intro H. unfold cont. destruct (length out + length R <? p) eqn:A; auto.
+    apply H. apply Nat.ltb_lt. auto.
+  Qed.
+
+  Lemma cont_app out R1 R2 K : length out < p ->
+    cont out R1 (fun o => cont o R2 K) = cont out (R1 ++ R2) K.
+  Proof.
+    intro L. unfold cont. rewrite !app_length, !rev_length.
+    destruct (length out + length R1 <? p) eqn:A.
+    - apply Nat.ltb_lt in A.
+      replace (length R1 + length out + length R2) with (length out + (length R1 + length R2)) by lia.
+      destruct (length out + (length R1 + length R2) <? p) eqn:B.
+      + rewrite rev_app_distr, <- app_assoc. reflexivity.
+      + f_equal. rewrite rev_app_distr, rev_involutive, <- app_assoc. f_equal.
+        rewrite firstn_app.
+        replace (firstn (p - length out) R1) with R1 by (symmetry; apply firstn_all2; lia).
+        f_equal. f_equal. lia.
+    - apply Nat.ltb_ge in A.
+      assert (B : (length out + (length R1 + length R2) <? p) = false) by (apply Nat.ltb_ge; lia).
+      rewrite B. f_equal. f_equal. rewrite firstn_app.
+      replace (p - length out - length R1) with 0 by lia. cbn [firstn]. rewrite app_nil_r. reflexivity.
+  Qed.
+
+  Lemma children_ok_p : forall suf pre rest rcur out fuel,
+    Forall (fun kc => node_ok_p (snd kc)) suf ->
+    pre ++ suf <> [] -> length out < p ->
+    fe_loop (S (cost_list suf + fuel)) p ((T (pre ++ suf), length pre) :: rest) rcur out =
+    cont out (flat_map (fun kc => sub_reports (fst kc :: rcur) (snd kc)) suf)
+         (after_p fuel rest rcur).
+  Proof.
+    induction suf as [|[k c] suf IH]; intros pre rest rcur out fuel F N L.
+    - rewrite app_nil_r in *. cbn [fe_loop].
+      destruct pre as [|p0 pre0]; [congruence|]. cbn [is_nil andb].
+      rewrite Nat.eqb_refl. unfold cont. cbn [flat_map length rev app].
+      rewrite Nat.add_0_r. apply Nat.ltb_lt in L. rewrite L.
+      destruct rest; reflexivity.
+    - cbn [fe_loop].
+      assert (E1 : is_nil (pre ++ (k, c) :: suf) = false) by (destruct pre; reflexivity).
+      rewrite E1. cbn [andb].
+      assert (E2 : Nat.eqb (length pre) (length (pre ++ (k, c) :: suf)) = false).
+      { apply Nat.eqb_neq. rewrite app_length. cbn. lia. }
+      rewrite E2, nth_error_mid.
+      pose proof (Forall_inv F) as Hc. cbn [snd] in Hc.
+      replace (cost_list ((k, c) :: suf) + fuel) with (cost c + S (cost_list suf + fuel))
+        by (unfold cost_list; cbn [fold_right snd]; lia).
+      rewrite Hc; auto. cbn [flat_map fst snd]. rewrite <- cont_app; auto.
+      apply cont_ext. intro A. cbn [after_p tl].
+      replace (pre ++ (k, c) :: suf) with ((pre ++ [(k, c)]) ++ suf) by (rewrite <- app_assoc; reflexivity).
+      replace (S (length pre)) with (length (pre ++ [(k, c)])) by (rewrite app_length; cbn; lia).
+      apply IH.
+      + eapply Forall_inv_tail; eauto.
+      + destruct pre; discriminate.
+      + rewrite app_length, rev_length. lia.
+  Qed.
+
+  Lemma all_nodes_ok_p : forall t, node_ok_p t.
+  Proof.
+    induction t as [l IH] using trie_ind2. intros rest rcur out fuel L.
+    destruct l as [|kc r].
+    - cbn [cost fold_right Nat.add fe_loop is_nil andb sub_reports].
+      destruct rcur as [|x rcur]; cbn [is_nil negb andb].
+      + unfold cont. cbn [length rev app]. rewrite Nat.add_0_r.
+        pose proof L as L'. apply Nat.ltb_lt in L'. rewrite L'.
+        cbn. destruct rest; reflexivity.
+      + unfold cont. cbn [length]. rewrite Nat.add_1_r. unfold bytes in *.
+        match goal with |- context [Nat.eqb ?a p] => destruct (Nat.eqb a p) eqn:E end.
+        * apply Nat.eqb_eq in E.
+          assert (B : (S (length out) <? p) = false) by (apply Nat.ltb_ge; lia). rewrite B.
+          replace (p - length out) with 1 by lia. reflexivity.
+        * apply Nat.eqb_neq in E.
+          assert (B : (S (length out) <? p) = true) by (apply Nat.ltb_lt; lia). rewrite B.
+          cbn [length Nat.eqb]. destruct rest; reflexivity.
+    - rewrite cost_T. cbn [Nat.add].
+      pose proof (children_ok_p (kc :: r) [] rest rcur out fuel IH ltac:(discriminate) L) as C.
+      cbn [app length] in C. rewrite sub_reports_node. exact C.
+  Qed.
+
+  (* the callback is called on the first p members of the traversal order *)
+  Theorem for_each_until_firstn : forall t, for_each_until p t = Ok (firstn p (members t)).
+  Proof.
+    intro t. unfold for_each_until.
+    replace (2 * size t) with (cost t + 1) by apply cost_size.
+    rewrite all_nodes_ok_p; [|cbn; lia]. unfold cont. cbn [length Nat.add after_p rev app].
+    rewrite sub_reports_root, Nat.sub_0_r.
+    destruct (length (members t) <? p) eqn:A; [|reflexivity].
+    apply Nat.ltb_lt in A. rewrite app_nil_r, rev_involutive, firstn_all2 by lia. reflexivity.
+  Qed.
+End Until.
